@@ -68,8 +68,7 @@ CFG = {
                       "dense_setlength_counters", "dense_set_counters", "dense_define_counters",
                       "sparse_delete_counters", "sparse_setlength_counters", "sparse_set_counters", "sparse_define_counters",
                       "counters_history", "init_exact", "export_refines", "push_refines", "pop_refines", "shift_refines",
-                      "unshift_refines", "splice_refines", "slice_refines", "splice_fastpath_proto_refuted",
-                      "transition_invisible",
+                      "unshift_refines", "splice_refines", "slice_refines", "transition_invisible",
                       "setlength_nonconfigurable_tail", "check_sort_sound", "check_sort_array_sound"],
     "allowed_axioms": [],
     "trusted_base": [
@@ -86,9 +85,7 @@ CFG = {
         "a divergence from S is attributed to a recorded finding only when the faithful model I reproduces the observation "
         "through the diverging op and that op lies in that finding's region (tags computed inside Coq)",
     ],
-    "predicates": {"C07.tag13_splice_fastpath_ignores_prototype": _tag(13, r"OSplice"),
-                   "C07.tag14_length_valueof_switches_storage": _tag(14, r"OSetLenRe"),
-                   "C07.tag15_length_valueof_readonly_same_value": _tag(15, r"OSetLenRe")},
+    "predicates": {"C07.tag15_length_valueof_readonly_same_value": _tag(15, r"OSetLenRe")},
     "manifest": {
         "text": ("proof: the Array exotic object (ArraySetLength, index [[DefineOwnProperty]], [[Set]], delete, get/has with holes) is "
                  "modelled as spec S over a finite map; goja's dense (values[]+counters) and sparse (sorted items[]) storages, both "
